@@ -31,7 +31,7 @@ PROPS = {
                 level_note='query traversal (keys, *, [*], filters, variables, key-case converters) and list flattening in operators.rs are NOT under contract: a change confined to query_retrieval_with_converter is not detected by this check',
                 not_under_contract=['query_retrieval_with_converter', 'operators.rs list-valued Eq/In', 'eval_guard_block_clause', 'eval_type_block_clause', 'scopes (resolve_variable, rule_status)', 'parser'],
                 explanation=''),
-    'C08': dict(level='proof', vgroups=['eval', 'eval_blocks', 'eval_disp', 'index', 'tracker', 'validate', 'exit', 'status', 'merge', 'report'],
+    'C08': dict(level='proof', vgroups=['eval', 'eval_blocks', 'eval_disp', 'index', 'index2', 'tracker', 'validate', 'exit', 'status', 'merge', 'report'],
                 kunits=['U-substr', 'U-call', 'U-cnf', 'U-count', 'U-conv', 'U-join', 'U-expect', 'U-xr'],
                 kunits_quick=['U-substr', 'U-call'],
                 assumptions=EVAL_ASSUME + KANI_ASSUME,
@@ -53,7 +53,7 @@ PROPS = {
                 level_text='order/repetition invariance is proved as lemmas over the aggregation spec functions (permutation = equal multisets, repetition = insertion of a copy; unbounded), composed with the conformance of the real aggregators to those spec functions (Verus unbounded for rule list / rule / when; Kani bounded for the CNF combinator)',
                 level_note='the history dimension (rule_status memo, lazy variable resolution, definition order of named rules) is NOT decided; CNF conformance is bounded (3x3)',
                 not_under_contract=['RootScope::rule_status memoisation', 'lazy resolve_variable', 'key capture'], explanation=''),
-    'C09': dict(level='proof', vgroups=['report', 'status', 'eval'], kunits=['U-failed'], assumptions=EVAL_ASSUME + [
+    'C09': dict(level='proof', vgroups=['report', 'status', 'eval'], kunits=[], assumptions=EVAL_ASSUME + [
                     'ASSUMED BTreeSet<String>/Vec::extend/HashMap::extend API models', 'assumed contract of report_all_failed_clauses_for_rules (one Rule entry per FAIL rule child)'],
                 level_text='Verus proves that compliant / not_applicable are exactly the PASS / SKIP rule children of the FileCheck node, status and name are copied, not_compliant has one Rule entry per FAIL child (callee contract), the partition lemma for distinct rule names, file status vs partitions, and that combine is the union with Status::and',
                 level_note='attribution of individual checks inside report_all_failed_clauses_for_rules is only an assumed contract here',
